@@ -24,7 +24,7 @@ MANIFEST = {
                  'finite-scope counter-models replayed natively; exhaustive short histories + random long histories as bounded stand-in',
 }
 UNITS = ['unit_events', 'unit_ffill', 'unit_bfill', 'unit_prev_next']
-BOUNDED = ['bounded_histories']
+BOUNDED = ['bounded_histories', 'bounded_purity']
 META = {
     'clauses': {'C03.idx.*': 'P', 'C03.rows (order, soundness, content, completeness for outer changes)': 'P', 'C03.vstack': 'P',
                 'C03.replay': 'P as a lemma over the rows spec for atoms with an outer change; B on the real table',
@@ -494,3 +494,10 @@ def bounded_histories(tier, seed):
             inner[:, cols] = -1
         one(states, inner)
     return st.result()
+
+
+# generic purity stand-in (arguments unchanged, second call equal, fresh call equal) over this property's API calls
+from verif.native.purity import make_bounded as _make_purity  # noqa: E402
+from verif.props.purity_reg import REG as _PURITY_REG  # noqa: E402
+PURITY = _PURITY_REG['C03']
+bounded_purity = _make_purity('C03', PURITY)
